@@ -93,7 +93,8 @@ def eval_type(ogp, q, inner, rep_):
         if t == fmtP:
             return (V('crate::MatrixVectorTypes::' + rep_),)
         return None
-    return Eval(leaf, lenient=False).ev(ogp.summaries[q])
+    import engine_skel as _K
+    return _K.table_ev(ogp, leaf, ogp.summaries[q])
 
 
 def check_type_table(rep, ogp, rule, where_prefix=''):
